@@ -37,7 +37,11 @@ func Replay(e *Env, path string) (int, error) {
 		if err != nil {
 			return 2, err
 		}
-		eng = &c06Engine{e, bin}
+		coldBin, err := e.BuildHarness("./harness/coldsim", "coldsim")
+		if err != nil {
+			return 2, err
+		}
+		eng = &c06Engine{e, bin, coldBin}
 	case "srcsim-c09":
 		bin, err := e.BuildHarness("./harness/srcsim", "srcsim")
 		if err != nil {
